@@ -1002,10 +1002,14 @@ class H3Connection:
             )
             stream.frame_size -= len(stream.buffer)
             stream.buffer = b""
+            if stream_ended:
+                raise FrameError("Frame truncated by the end of the stream")
             return http_events
 
         # handle lone FIN
         if stream_ended and not stream.buffer:
+            if stream.frame_size is not None:
+                raise FrameError("Frame truncated by the end of the stream")
             self._check_content_length(stream)
 
             http_events.append(
@@ -1100,6 +1104,14 @@ class H3Connection:
 
         # remove processed data from buffer
         stream.buffer = stream.buffer[consumed:]
+
+        # a frame cut short by the end of the stream is a connection error
+        if (
+            stream.receiving_ended
+            and not stream.blocked
+            and (stream.buffer or stream.frame_size is not None)
+        ):
+            raise FrameError("Frame truncated by the end of the stream")
 
         return http_events
 
